@@ -41,13 +41,14 @@ def sizes_for(ctx, cls, supported, salt):
     rng = ctx.np_rng(salt)
     top = 4 if ctx.thorough else 3
     out = []
+    outside = []
     for L in itertools.product(range(1, top + 1), repeat=3):
         if supported(L):
             out.append((L, 'family'))
         elif max(L) <= 2 or ctx.thorough:
-            out.append((L, 'outside-family'))
+            outside.append((L, 'outside-family'))
     big_top, n_big = (8, 8) if ctx.thorough else (6, 3)
-    seen = {s for s, _ in out}
+    seen = {s for s, _ in out + outside}
     tries = 0
     while n_big and tries < 200:
         tries += 1
@@ -57,7 +58,7 @@ def sizes_for(ctx, cls, supported, salt):
         seen.add(L)
         out.append((L, 'family-larger'))
         n_big -= 1
-    return out
+    return out + outside
 
 
 def probe_locations(code, rng, k=12):
